@@ -210,6 +210,16 @@ def lenient_then_strict(res, judge):
                 break
             res.count("lenient_loads_keeping_out_of_range")
             res.case((T, sc.name, "lenient-then-strict", rep))
+            try:
+                setattr(o.module, sc.name, v)            # the loaded module is handed the value it holds: still out of range
+            except ControllerValueError:
+                pass
+            except Exception as e:
+                res.violation(f"C18:strict-after-lenient-load:wrong-error:{type(e).__name__}", f"loaded {T}.{sc.name} = {v} (its own out-of-range value) raised {e!r}", case)
+                break
+            else:
+                res.violation("C18:strict-after-lenient-load:accepted", f"a loaded {T} holding {sc.name} = {v} (outside {sc.min}..{sc.max}): assigning it that value again is accepted", case)
+                break
             fresh = cls()
             try:
                 setattr(fresh, sc.name, v)
